@@ -29,7 +29,7 @@ def sanitiser_first(repo, f):
     for p in paths_of(repo, f, asserts='ignore'):
         for e in p.events:
             operand = None
-            if e.kind == 'call' and isinstance(e.node.func, ast.Attribute) and e.node.func.attr in STRING_OPS and e.recv is not None:
+            if e.kind == 'call' and isinstance(e.node, ast.Call) and isinstance(e.node.func, ast.Attribute) and e.node.func.attr in STRING_OPS and e.recv is not None:
                 operand = e.recv
             elif e.kind == 'call' and e.ftext in ('re.split', 're.match', 're.search', 're.findall') and len(e.args) > 1:
                 operand = e.args[1]
@@ -168,6 +168,30 @@ def run(ctx):
         if isinstance(st, ast.Assign) and isinstance(st.targets[0], ast.Name) and isinstance(st.value, ast.Constant):
             consts[st.targets[0].id] = st.value.value
 
+    def tuple_component(v, i, k):
+        if isinstance(v, (ast.Tuple, ast.List)) and len(v.elts) == k and not any(isinstance(x, ast.Starred) for x in v.elts):
+            return [v.elts[i]]
+        if isinstance(v, ast.IfExp):
+            return tuple_component(v.body, i, k) + tuple_component(v.orelse, i, k)
+        raise KeyError(norm(v))
+
+    def int_values(a, depth=0):
+        """The finite set of values of an integer expression over unknown integers, or None (x % m with a positive constant m is in [0, m))."""
+        if depth > 6:
+            return None
+        if isinstance(a, ast.Constant) and isinstance(a.value, int) and not isinstance(a.value, bool):
+            return {a.value}
+        if isinstance(a, ast.BinOp) and isinstance(a.op, ast.Mod) and isinstance(a.right, ast.Constant) and isinstance(a.right.value, int) \
+                and not isinstance(a.right.value, bool) and 0 < a.right.value <= 64 and not any(isinstance(x, (ast.Call, ast.Constant)) and not (isinstance(x, ast.Constant) and isinstance(x.value, int)) for x in ast.walk(a.left)):
+            return set(range(a.right.value))
+        if isinstance(a, ast.BinOp) and isinstance(a.op, (ast.Add, ast.Sub, ast.Mult)):
+            l_, r_ = int_values(a.left, depth + 1), int_values(a.right, depth + 1)
+            if l_ is None or r_ is None:
+                return None
+            op = {ast.Add: lambda x, y: x + y, ast.Sub: lambda x, y: x - y, ast.Mult: lambda x, y: x * y}[type(a.op)]
+            return {op(x, y) for x in l_ for y in r_}
+        return None
+
     def code_values(f, e, depth=0):
         """Set of possible code strings (None for no code); raises KeyError if not evaluable."""
         if depth > 5:
@@ -185,24 +209,48 @@ def run(ctx):
                     out.add((a or '') + (b or ''))
             return out
         if isinstance(e, ast.Call) and isinstance(e.func, ast.Name) and e.func.id == 'str' and len(e.args) == 1:
-            # str(<integer arithmetic>) renders digits (possibly with a sign)
-            a = e.args[0]
-            names = [x for x in ast.walk(a) if isinstance(x, ast.Name)]
-            if all(isinstance(x, (ast.BinOp, ast.Constant, ast.Name, ast.operator, ast.expr_context)) for x in ast.walk(a)) and \
-                    isinstance(a, ast.BinOp) and isinstance(a.op, ast.Add) and isinstance(a.left, ast.BinOp) and isinstance(a.left.op, ast.Mod):
-                lo = a.right.value if isinstance(a.right, ast.Constant) else None
-                m = a.left.right.value if isinstance(a.left.right, ast.Constant) else None
-                if isinstance(lo, int) and isinstance(m, int) and lo >= 0:
-                    return {str(v) for v in range(lo, lo + m)}
-            raise KeyError(norm(e))
+            # str(<integer arithmetic>) renders digits
+            vs = int_values(e.args[0])
+            if vs is None or any(v < 0 for v in vs):
+                raise KeyError(norm(e))
+            return {str(v) for v in vs}
+        if isinstance(e, ast.JoinedStr):
+            outs = {''}
+            for v in e.values:
+                if isinstance(v, ast.Constant) and isinstance(v.value, str):
+                    piece = {v.value}
+                elif isinstance(v, ast.FormattedValue) and v.conversion == -1 and v.format_spec is None:
+                    vs = int_values(v.value)
+                    if vs is not None and all(x >= 0 for x in vs):
+                        piece = {str(x) for x in vs}
+                    else:
+                        piece = {x or '' for x in code_values(f, v.value, depth + 1)}
+                else:
+                    raise KeyError(norm(e))
+                outs = {a + b for a in outs for b in piece}
+                if len(outs) > 64:
+                    raise KeyError(norm(e))
+            return outs
         if isinstance(e, ast.Name):
             # local alias?
             defs = [n for n in f.body_nodes() if isinstance(n, (ast.Assign, ast.AnnAssign)) and any(isinstance(t, ast.Name) and t.id == e.id for t in (n.targets if isinstance(n, ast.Assign) else [n.target]))]
-            if defs:
+            # `a, code = (x, c1) if t else (y, c2)`: the component of every alternative at the name's position
+            tdefs = []
+            for n in f.body_nodes():
+                if isinstance(n, ast.Assign):
+                    for t in n.targets:
+                        if isinstance(t, (ast.Tuple, ast.List)) and not any(isinstance(x, ast.Starred) for x in t.elts):
+                            for i, x in enumerate(t.elts):
+                                if isinstance(x, ast.Name) and x.id == e.id:
+                                    tdefs.append((n.value, i, len(t.elts)))
+            if defs or tdefs:
                 out = set()
                 for d in defs:
                     if d.value is not None:
                         out |= code_values(f, d.value, depth + 1)
+                for v, i, k in tdefs:
+                    for comp in tuple_component(v, i, k):
+                        out |= code_values(f, comp, depth + 1)
                 return out
             if e.id in f.params() and not f.is_module_body:
                 # a parameter: the union over what the callers pass
@@ -249,7 +297,7 @@ def run(ctx):
                       'colour code %r is not of the form [0-9;]*: no_color() cannot strip the sequence' % (bad[0] if bad else ''))
         except KeyError as ex_:
             ctx.violation('C17.3', 'code:%s:%s' % (f.qual, norm(n.args[0])[:40]), f.loc(n), 'cannot show that colour code %s is strippable (not a constant / known alias)' % norm(n.args[0])[:60])
-    ctx.floor('C17.3', ncodes, 60, 'color() call sites')
+    ctx.floor('C17.3', ncodes, 40, 'color() call sites')
     subs = []
     extra = []
     for n in f_noc.body_nodes():
